@@ -211,6 +211,68 @@ fn leak_probes(_: &Ctx) -> Vec<RCase> {
     v
 }
 
+/// (offset of the 16-byte block header, stored length, declared inflated length) of every deflated block of every
+/// AddFile command of a well-formed patch
+fn deflated_blocks(b: &[u8]) -> Vec<(usize, usize, usize)> {
+    let mut out = vec![];
+    let mut at = 12usize;
+    while at + 8 <= b.len() {
+        let size = u32::from_be_bytes([b[at], b[at + 1], b[at + 2], b[at + 3]]) as usize;
+        let tag = &b[at + 4..at + 8];
+        if tag == b"EOF_" || at + 8 + size > b.len() {
+            break;
+        }
+        let body = at + 8;
+        if tag == b"SQPK" && size > 5 + 27 && b[body + 4] == b'F' && b[body + 5] == b'A' {
+            // inner size (4), command (1), operation (1), padding (2), offset (8), size (8), path length (4), expansion (2), padding (2), path
+            let path_len = u32::from_be_bytes([b[body + 24], b[body + 25], b[body + 26], b[body + 27]]) as usize;
+            let mut p = body + 32 + path_len;
+            let end = body + size;
+            while p + 16 <= end {
+                let stored = i32::from_le_bytes([b[p + 8], b[p + 9], b[p + 10], b[p + 11]]);
+                let inflated = i32::from_le_bytes([b[p + 12], b[p + 13], b[p + 14], b[p + 15]]) as usize;
+                let payload = if stored == 32000 { inflated } else { stored as usize };
+                if stored != 32000 {
+                    out.push((p, stored as usize, inflated));
+                }
+                p += (payload + 143) & !127;
+            }
+        }
+        at += 8 + size + 4;
+    }
+    out
+}
+
+/// "A patch that fails part-way reports an error rather than success": every deflated AddFile block of the seed
+/// patches with one byte of its stream damaged. Whether the damage makes the stream undecodable is decided by an
+/// independent inflater (miniz_oxide) given exactly the bytes and the output bound Physis' reader has; where it
+/// does (invalid, incomplete, or more output than the block declares), apply must return Err.
+fn damaged_blocks(ctx: &Ctx) -> Vec<RCase> {
+    let reg = registry();
+    let cap = ctx.tier.pick(160usize, 2000usize);
+    let mut v = vec![];
+    for s in reg.seeds.iter().filter(|s| s.entry == "zipatch") {
+        let patch = &s.args[0];
+        for (bi, (at, stored, inflated)) in deflated_blocks(patch).into_iter().enumerate() {
+            let region = ((stored + 143) & !127) - 16;
+            for i in crate::props::mutate::sweep_offsets(stored, cap) {
+                for mask in [0x01u8, 0x20, 0xFF] {
+                    let mut p = patch.clone();
+                    p[at + 16 + i as usize] ^= mask;
+                    let undecodable = miniz_oxide::inflate::decompress_to_vec_with_limit(&p[at + 16..at + 16 + region], inflated).is_err();
+                    let mut c = RCase::explicit("zipatch", if undecodable { "damaged-block:undecodable" } else { "damaged-block:still-decodable" }, vec![p, s.args[1].clone(), vec![0]]);
+                    if undecodable {
+                        c = c.expect_err();
+                        c.note = format!("damaged-block:undecodable: seed {}, deflated block #{} ({} -> {} bytes), stream byte {} xor {:#04x}", s.name, bi, stored, inflated, i, mask);
+                    }
+                    v.push(c);
+                }
+            }
+        }
+    }
+    v
+}
+
 /// chunk boundaries of a ZiPatch stream (12-byte file header, then BE size + tag + body + crc)
 fn chunk_marks(b: &[u8]) -> Vec<u32> {
     let mut v = vec![12u32];
@@ -249,6 +311,52 @@ fn fields(ctx: &Ctx) -> Vec<RCase> {
 
 fn text_fields(_: &Ctx) -> Vec<RCase> {
     text_field_cases(registry(), &[("cfg", b"\t<>"), ("exl", b","), ("patchlist-boot", b"\t:"), ("patchlist-game", b"\t,:")])
+}
+
+fn case_mapping(ctx: &Ctx) -> Vec<RCase> {
+    case_mapping_cases(registry(), &["cfg", "exl", "patchlist-boot", "patchlist-game"], ctx.tier.pick(1024, 8192), ctx.tier.pick(2, 99))
+}
+
+/// Chat logs built from the layout with every shape of offset table over a tail in which every 10-byte unit is a
+/// well-formed entry header: sorted (valid), descending, zig-zag, constant, one swap, shuffled. An unsorted table makes
+/// message ranges overlap, so the text a reader hands out is out of proportion to the file unless it rejects them.
+fn log_tables(ctx: &Ctx) -> Vec<RCase> {
+    let mut v = vec![];
+    let sizes: Vec<usize> = ctx.tier.pick(vec![16usize, 1000, 20000], vec![16usize, 1000, 20000, 90000]);
+    for k in sizes {
+        let mut tail = crate::build::W::new();
+        for i in 0..k as u32 {
+            tail.u32(1_700_000_000 + i).u8(3).u8(0).u32(1);
+        }
+        let step = |i: usize| (10 * i) as u32;
+        let mut tables: Vec<(&str, Vec<u32>)> = vec![
+            ("sorted", (0..k).map(step).collect()),
+            ("descending", (0..k).rev().map(step).collect()),
+            ("zig-zag", (0..k).map(|i| if i % 2 == 0 { step(i / 2) } else { step(k - 1 - i / 2) }).collect()),
+            ("constant-zero", vec![0; k]),
+            ("constant-last", vec![step(k - 1); k]),
+            ("one-swap", (0..k).map(|i| if i == k / 2 { step(k / 2 + 1) } else if i == k / 2 + 1 { step(k / 2) } else { step(i) }).collect()),
+        ];
+        let mut shuffled: Vec<u32> = (0..k).map(step).collect();
+        let mut x = k as u64;
+        for i in (1..k).rev() {
+            x = util::splitmix64(x);
+            shuffled.swap(i, (x % (i as u64 + 1)) as usize);
+        }
+        tables.push(("shuffled", shuffled));
+        for (name, t) in tables {
+            let mut w = crate::build::W::new();
+            w.u32(0).u32(k as u32);
+            for o in &t {
+                w.u32(*o);
+            }
+            w.bytes(&tail.b);
+            let mut c = RCase::explicit("log", "log-table", vec![w.b]);
+            c.note = format!("log-table: {} entries, offset table {}", k, name);
+            v.push(c);
+        }
+    }
+    v
 }
 
 fn seeds_as_they_are(_: &Ctx) -> Vec<RCase> {
@@ -428,13 +536,16 @@ fn post(_: &Ctx) {
 pub fn property() -> Property {
     Property {
         id: "C17",
-        rule: "cases = (entry point, valid seed file, corruption) executed in an isolated worker process. Entry points: ConfigFile, EXL, FileInfo (from_existing and new), CharacterData, GearSets, ChatLog, PatchList (boot and game) from_string+to_string, ZiPatch::apply on a scratch tree, extract_frontier_url, BootData (+apply_patch), Blowfish on arbitrary data; values that parse are also written back / queried. Seeds: repository fixtures, output of the C03/C08/C09/C10 generators for fixed internal seeds, hand-built chat logs and launcher executables. Corruptions: every truncation point; every offset x width {1,2,4,8} x value {0, 1, 0x7F.., 0x80.., 0xFF.., +1, -1} x byte order; random compositions of truncate/field/bit-flip/byte/insert (incl. invalid UTF-8, NUL, line structure)/remove/duplicate/copy-range/append; random blobs up to 1 MiB behind intact magic; I/O fault recipes (missing path, path of the wrong kind, unwritable targets for every patch command, commands before target info, patch streams ending early). Oracle: worker outcome must be value or ordinary failure -- no panic, abort, stack overflow, more than 10 s CPU, or live heap above max(64 MiB, 256 x input); a patch stream without its end-of-file chunk or with an unwritable target must return Err. Non-trivial: input differs from the seed, is non-empty and keeps the seed's magic; distinct by hash of (entry, arguments).",
+        rule: "cases = (entry point, valid seed file, corruption) executed in an isolated worker process. Entry points: ConfigFile, EXL, FileInfo (from_existing and new), CharacterData, GearSets, ChatLog, PatchList (boot and game) from_string+to_string, ZiPatch::apply on a scratch tree, extract_frontier_url, BootData (+apply_patch), Blowfish on arbitrary data; values that parse are also written back / queried. Seeds: repository fixtures, output of the C03/C08/C09/C10 generators for fixed internal seeds, hand-built chat logs and launcher executables. Corruptions: every truncation point; every offset x width {1,2,4,8} x value {0, 1, 0x7F.., 0x80.., 0xFF.., +1, -1} x byte order; random compositions of truncate/field/bit-flip/byte/insert (incl. invalid UTF-8, NUL, line structure)/remove/duplicate/copy-range/append; random blobs up to 1 MiB behind intact magic; text formats with characters whose case mapping changes their UTF-8 length at every line start, and at the start of the text combined with every truncation / a two-byte character at every offset; chat logs of 16 / 1000 / 20 000 (90 000 thorough) entries with sorted, descending, zig-zag, constant, swapped and shuffled offset tables; I/O fault recipes (missing path, path of the wrong kind, unwritable targets for every patch command, commands before target info, patch streams ending early). Oracle: worker outcome must be value or ordinary failure -- no panic, abort, stack overflow, more than 10 s CPU, or live heap above max(64 MiB, 256 x input); a patch stream without its end-of-file chunk, with an unwritable target, or with a deflated AddFile block whose stream an independent inflater (miniz_oxide) cannot decode within the declared size (every stream byte of every deflated block of the seed patches xor 0x01 / 0x20 / 0xFF) must return Err. Non-trivial: input differs from the seed, is non-empty and keeps the seed's magic; distinct by hash of (entry, arguments).",
         assumptions: &["Blowfish keys are 8..56 bytes (caller-chosen, not untrusted input; the key schedule reads the first 8 bytes)", "PatchList::from_string takes &str: arbitrary bytes are converted lossily to text first", "files a case writes are capped at 16 MiB by RLIMIT_FSIZE (reported to the library as an I/O error)", "wall-clock time is not judged; the CPU budget is 10 s per case"],
         pre: Some(pre),
         parts: vec![
             Box::new(Part { name: "seeds", driver: Driver::Enum(seeds_as_they_are), prop, exhaustive: true }),
             Box::new(Part { name: "io-faults", driver: Driver::Enum(io_faults), prop, exhaustive: true }),
             Box::new(Part { name: "leak-probes", driver: Driver::Enum(leak_probes), prop, exhaustive: false }),
+            Box::new(Part { name: "damaged-blocks", driver: Driver::Enum(damaged_blocks), prop, exhaustive: true }),
+            Box::new(Part { name: "log-tables", driver: Driver::Enum(log_tables), prop, exhaustive: true }),
+            Box::new(Part { name: "case-mapping", driver: Driver::Enum(case_mapping), prop, exhaustive: true }),
             Box::new(Part { name: "text-fields", driver: Driver::Enum(text_fields), prop, exhaustive: true }),
             Box::new(Part { name: "truncations", driver: Driver::Enum(truncations), prop, exhaustive: true }),
             Box::new(Part { name: "fields", driver: Driver::Enum(fields), prop, exhaustive: true }),
